@@ -18,6 +18,9 @@ pub enum Use {
 pub struct CacheLife {
     /// the source keeps the EventSender alive after the cache is gone (a custom source or a watcher usually does)
     pub sender_outlives: bool,
+    /// the source drops its EventSender right after the cache was created (it will never send anything)
+    #[serde(default)]
+    pub sender_dropped_early: bool,
     pub uses: Vec<Use>,
     /// events sent right before the drop and never consumed by a hot_reload
     pub queued_at_drop: usize,
@@ -52,6 +55,7 @@ impl Property for C15 {
         let caches = (0..n)
             .map(|_| CacheLife {
                 sender_outlives: g.chance(2, 3),
+                sender_dropped_early: g.chance(1, 6),
                 uses: (0..g.below(6))
                     .map(|_| match g.below(8) {
                         0 | 1 | 2 => Use::Load(g.below(3) as usize),
@@ -136,6 +140,10 @@ fn make(life: &CacheLife) -> Live {
     }
     let src = SimSource::new(tree, HotMode::Custom, 1);
     let cache = AssetCache::with_source(src.clone());
+    if life.sender_dropped_early {
+        src.drop_sender();
+        detsim::count("fault.source_dropped_its_sender_early");
+    }
     Live { cache, src, life: life.clone() }
 }
 fn use_it(l: &Live, ver: &mut u64) {
